@@ -2,6 +2,7 @@
   CCI (NCSD cartridge image) header: `CCIReader.__init__`; CDN / SD-title content selection.
 -/
 import PyctrModel.Fmt.Tmd
+import PyctrModel.Engine.Engine
 namespace Pyctr
 namespace Cci
 
@@ -51,6 +52,16 @@ def chooseFile (isfile : Bytes → Bool) (lower upper : Bytes) : Option Bytes :=
 def select (isfile : Bytes → Bool) (names : Tmd.ChunkRecord → Bytes × Bytes) (records : List Tmd.ChunkRecord) :
     List (Tmd.ChunkRecord × Bytes) :=
   records.filterMap fun r => (chooseFile isfile (names r).1 (names r).2).map fun f => (r, f)
+
+/-- how `CDNReader.__init__` obtains the title key: `decrypted_titlekey` when truthy, else the encrypted `titlekey` when
+    truthy (with `common_key_index`), else the first 0x2AC bytes of the file `cetk` next to the tmd (`none`: no such file) -/
+def setupKey (D : Bytes → Bytes → Bytes) (e : Engine) (titleId dec enc : Bytes) (idx : Nat) (cetk : Option Bytes) :
+    Engine × Option Err :=
+  if dec ≠ [] then (e.setNormal 0x40 dec, none)
+  else if enc ≠ [] then Engine.loadEncryptedTitlekey D e enc idx titleId
+  else match cetk with
+    | none => (e, some (.other "ResourceNotFound"))
+    | some t => Engine.loadFromTicket D e (t.take 0x2AC)
 
 end Cdn
 
